@@ -6,8 +6,8 @@ import os
 RULE = ("real MemoryBackend driven operation by operation with bare clients, complete state compared with the model after every step "
         "and every specification clause evaluated on the observed step; families: (targets) every filter pair of the 10-filter universe x 7 names "
         "x QoS triples, temporary/stored/clean sessions; (ownfull) the publisher's own matching queue full: live publisher (refused, nothing changes) and "
-        "closing publisher (will during a takeover: own session skipped), QoS 0/1/2, temporary and stored, retained flag set, observers; (retained) every name pair x every filter x QoS pairs with delete and "
-        "non-retained publishes, then resubscription; (exhaustive) every sequence of depth %s over a %s-operation alphabet "
+        "closing publisher (will during a takeover: own session skipped), QoS 0/1/2, temporary and stored, retained flag set, observers; (sizes) payloads of 0,1,127,128,16383,16384,65535,65536,70001 bytes live, retained and replayed; (retained) every name pair x every filter x QoS pairs with delete (at every QoS) and "
+        "non-retained publishes, then resubscription; (manyretained) 24 retained topics replayed by r/+, r/# and r/+/x; (exhaustive) every sequence of depth %s over a %s-operation alphabet "
         "(subscribe, unsubscribe, unsubscribe whose acknowledgement callback publishes, publish retained/empty/plain, dequeue, terminate, "
         "resume, clean takeover) after a fixed two-client prefix, "
         "queue size 2; (random) seeded histories of 5..%s operations over 1-6 clients, ids {'',x,y,z}, queue sizes 1,2,3,100, SUBSCRIBE with "
@@ -15,7 +15,9 @@ RULE = ("real MemoryBackend driven operation by operation with bare clients, com
         "Unsubscribe acknowledgement, wills of closing connections, backend Close; black-box: scripted MQTT peers through broker.Engine over "
         "net.Pipe (connect/subscribe/unsubscribe/publish QoS 0-2/disconnect/connection loss with will/takeover), deliveries between FIFO "
         "markers compared with the model's queues. "
-        "distinct_nontrivial = distinct (operation, result, number of sessions) classes")
+        "concurrent phase: 4 publishers x 40 messages, 2 dequeuers, a subscribe/unsubscribe churner and connections joining and leaving, judged "
+        "directly per subscriber (thorough: once more under the race detector). "
+        "distinct_nontrivial = distinct (operation, result, number of sessions, publish class) classes")
 
 
 def history_lines(ex, label):
